@@ -154,6 +154,90 @@ pub fn check_one(data: &[u8], zlib: bool, mem: MemCfg, ch: Chunking, known: Know
     Ok(())
 }
 
+
+/// The same oracle through the streaming wrapper: whatever the schedule (a first-call Finish with
+/// too little room followed by more Finish calls included), StreamEnd is only acceptable if the
+/// consumed bytes are a Complete stream for the reference decoder and the delivered bytes are its
+/// output; a Complete stream driven by the usual None loop must reach StreamEnd.
+pub fn check_wrapper(data: &[u8], zlib: bool, acc: &mut Acc) -> Result<(), (String, String)> {
+    use miniz_oxide::inflate::stream::{inflate, InflateState};
+    use miniz_oxide::{DataFormat, MZFlush};
+    let fmts: Vec<(DataFormat, bool)> = if zlib { vec![(DataFormat::Zlib, true), (DataFormat::ZLibIgnoreChecksum, false)] } else { vec![(DataFormat::Raw, false)] };
+    for (fmt, check_adler) in fmts {
+        let mut o = Opts::fmt(zlib);
+        o.keep_tokens = false;
+        o.check_adler = check_adler;
+        o.max_out = 1 << 22;
+        // the wrapper decodes into a zero-filled 32 KiB ring (or, on a first-call Finish, into the caller's flat buffer)
+        let t_flat = ref_inflate(data, &o);
+        let mut o2 = o.clone();
+        o2.mem = Mem::Ring { contents: vec![0; 32768], start: 0 };
+        let t_ring = ref_inflate(data, &o2);
+        let n = t_flat.out.len().max(t_ring.out.len());
+        for sched in 0..5 {
+            acc.evals += 1;
+            let r = guarded(|| {
+                let mut st = InflateState::new_boxed(fmt);
+                let mut out: Vec<u8> = vec![];
+                let mut ip = 0usize;
+                let mut code = 0;
+                let mut calls = 0;
+                loop {
+                    let (k, room, fl) = match sched {
+                        0 => (data.len() - ip, if calls == 0 { 1 } else { n + 64 }, MZFlush::Finish),
+                        1 => (data.len() - ip, if calls == 0 { n / 2 + 1 } else { n + 64 }, MZFlush::Finish),
+                        2 => (1.min(data.len() - ip), 1, MZFlush::None),
+                        3 => (data.len() - ip, n + 64, MZFlush::None),
+                        _ => (data.len() - ip, 7, if calls == 0 { MZFlush::None } else { MZFlush::Finish }),
+                    };
+                    let mut buf = vec![0u8; room];
+                    let r = inflate(&mut st, &data[ip..ip + k], &mut buf, fl);
+                    if r.bytes_consumed > k || r.bytes_written > room {
+                        return Err("counts out of range".to_string());
+                    }
+                    ip += r.bytes_consumed;
+                    out.extend_from_slice(&buf[..r.bytes_written]);
+                    code = mzres_code(&r.status);
+                    calls += 1;
+                    let progressed = r.bytes_consumed > 0 || r.bytes_written > 0;
+                    if code == 1 || code == -3 || code == -2 || code == -10000 {
+                        break;
+                    }
+                    if code == -5 && !progressed && !(fl == MZFlush::None && ip < data.len()) {
+                        break;
+                    }
+                    if calls > 4 * (data.len() + n) + 64 {
+                        break;
+                    }
+                }
+                Ok((code, out, ip, calls))
+            });
+            let (code, out, ip, _calls) = match r {
+                Ok(Ok(x)) => x,
+                Ok(Err(e)) => return Err(("wrapper-counts".into(), e)),
+                Err(p) => return Err(("panic".into(), format!("inflate() panicked: {}", p))),
+            };
+            if code == 1 {
+                // the first-call-Finish schedules decode flat, the others into the ring
+                let t = if sched <= 1 && out.len() <= (if sched == 0 { 1 } else { n / 2 + 1 }) { &t_flat } else if sched <= 1 { &t_ring } else { &t_ring };
+                let ok_flat = matches!(t_flat.verdict, Verdict::Complete) && t_flat.consumed == ip && t_flat.out == out;
+                let ok_ring = matches!(t_ring.verdict, Verdict::Complete) && t_ring.consumed == ip && t_ring.out == out;
+                let _ = t;
+                if !(ok_flat || ok_ring) {
+                    return Err((
+                        format!("wrapper-accepts/{}", if matches!(t_ring.verdict, Verdict::Complete) { "wrong-output" } else { "invalid" }),
+                        format!("inflate() ({:?}, schedule {}) reported StreamEnd with {} bytes out / {} consumed; the reference says {:?} with {} bytes out / {} consumed", fmt as i32, sched, out.len(), ip, t_ring.verdict, t_ring.out.len(), t_ring.consumed),
+                    ));
+                }
+                *acc.classes.entry("wrapper-done-valid").or_insert(0) += 1;
+            } else if (sched == 2 || sched == 3) && matches!(t_ring.verdict, Verdict::Complete) && matches!(t_flat.verdict, Verdict::Complete) {
+                return Err((format!("wrapper-rejects-valid/{}", code), format!("inflate() None loop (schedule {}) ends with code {} on a stream the reference accepts", sched, code)));
+            }
+        }
+    }
+    Ok(())
+}
+
 fn chunkings_for(len: usize, all_cuts: bool) -> Vec<Chunking> {
     let mut v = vec![Chunking::OneCall, Chunking::OneCallMore, Chunking::Bytewise];
     if all_cuts {
@@ -608,6 +692,11 @@ pub fn run(tier: &str) -> i32 {
         mutants_of(s, &mut ms, th);
         let n_out = s.plain.len();
         let mems = [MemCfg { mode: Mode::Flat, len: n_out + 600 }, MemCfg { mode: Mode::Ring, len: 32768 }, MemCfg { mode: Mode::Ring, len: 16 }];
+        for m in std::iter::once(&s.bytes).chain(ms.iter().map(|x| &x.0).step_by(if th { 1 } else { 3 })) {
+            if let Err((site, what)) = check_wrapper(m, s.zlib, acc) {
+                rep.violation(&format!("C04/{}", site), format!("{} :: mutant of [{}]", what, s.desc), json!({"wrapper": true, "input_hex": hex(m), "zlib": s.zlib, "base": s.desc}));
+            }
+        }
         for (m, known) in ms.iter() {
             watchdog::pulse();
             acc.distinct.insert(crate::util::fp128(m));
@@ -738,6 +827,11 @@ pub fn run(tier: &str) -> i32 {
 }
 
 pub fn replay(v: &Value) -> Option<String> {
+    if v.get("wrapper").is_some() {
+        let d = unhex(v["input_hex"].as_str()?);
+        let mut acc = Acc::default();
+        return check_wrapper(&d, v["zlib"].as_bool()?, &mut acc).err().map(|e| e.1);
+    }
     let d = match v["input_hex"].as_str() {
         Some(h) => unhex(h),
         None => {
